@@ -186,7 +186,9 @@ class Ctx:
         if not targets:
             self.coq_project()
             lock = os.path.join(VERIF, "build", "coq.lock")
-            p = self.sh(["flock", lock, "make", "-j16"], cwd=self.coqdir, timeout=timeout)
+            # -k: one file that no longer compiles must not keep the rest from being built;
+            # the property whose closure contains it reports the broken obligation itself
+            p = self.sh(["flock", lock, "make", "-k", "-j12"], cwd=self.coqdir, timeout=timeout)
             return p.returncode == 0, p.stdout + p.stderr
         import concurrent.futures as cf
         import fcntl
